@@ -231,6 +231,14 @@ func (c *proxyConn) LocalAddr() net.Addr {
 	return c.under.LocalAddr()
 }
 
+// CloseWrite shuts down the writing side of the connection the header was
+// received on, if it supports that (the library's connection hides the method,
+// so that without it a handler such as the proxy could never pass a half-close
+// from an upstream on to the client).
+func (c *proxyConn) CloseWrite() error {
+	return c.under.CloseWrite()
+}
+
 // UnmarshalCaddyfile sets up the Handler from Caddyfile tokens. Syntax:
 //
 //	proxy_protocol {
